@@ -1,16 +1,20 @@
 #!/bin/bash
-# Confirm a sub-agent's seeded change in its own scratch worktree: ctest passes with the change,
-# the demonstration fails with the change and passes without it.  tools/confirm_mutant.sh /tmp/wt/Cxx
+# Confirm a sub-agent's seeded change in its own scratch worktree: the patch applies to the pristine tree, ctest passes
+# with the change, the demonstration fails with the change and passes without it.   tools/confirm_mutant.sh /tmp/wt/Cxx-b
 set -u
 WT="$1"
 cd "$WT" || exit 2
-export CCACHE_NOHASHDIR=1 CCACHE_BASEDIR="$WT"
-git diff --stat -- src | tail -3
-cmake --build _build -j16 > /tmp/confirm_build.log 2>&1 || { echo "BUILD FAILED (with change)"; exit 1; }
-ctest --test-dir _build -j16 --timeout 900 2>&1 | tail -3 | head -2
-bash mutant/demo.sh > /tmp/confirm_demo_with.log 2>&1; echo "demo with change: exit=$?"
-git stash -q -- src
-cmake --build _build -j16 > /tmp/confirm_build2.log 2>&1 || { echo "BUILD FAILED (without change)"; git stash pop -q; exit 1; }
-bash mutant/demo.sh > /tmp/confirm_demo_without.log 2>&1; echo "demo without change: exit=$?"
-git stash pop -q
+export CCACHE_DIR=/var/tmp/wt-ccache CCACHE_NOHASHDIR=1 CCACHE_BASEDIR="$WT"
+L="$WT/_confirm"; mkdir -p "$L"
+git checkout -q -- src || exit 2
+git apply --check mutant/patch.diff || { echo "PATCH DOES NOT APPLY to pristine tree"; exit 1; }
+cmake --build _build -j16 > "$L/build0.log" 2>&1 || { echo "BUILD FAILED (without change)"; exit 1; }
+timeout 1200 bash mutant/demo.sh > "$L/demo_without.log" 2>&1; W0=$?
+git apply mutant/patch.diff
 git diff --stat -- src | tail -1
+cmake --build _build -j16 > "$L/build1.log" 2>&1 || { echo "BUILD FAILED (with change)"; exit 1; }
+T=$(ctest --test-dir _build -j16 --timeout 900 2>&1 | grep -E "tests passed|tests failed")
+timeout 1200 bash mutant/demo.sh > "$L/demo_with.log" 2>&1; W1=$?
+echo "ctest(with change): $T"
+echo "demo without change: exit=$W0   demo with change: exit=$W1"
+if [ "$W0" = 0 ] && [ "$W1" != 0 ] && echo "$T" | grep -q "100% tests passed"; then echo "CONFIRMED"; else echo "NOT CONFIRMED"; exit 1; fi
